@@ -11,10 +11,68 @@ package file
 //@
 //@ pure fileStoreRI(s *Store) bool = s != nil && s.graph != nil && alive(s.graph) && graphRI(s.graph)
 //@
-//@ func (*Store).push
+//@ func (*Store).status
 //@   trusted
+//@   ensures result != nil && alive(result)
+//@   modifies ghost.syncHas, ghost.syncVal, ghost.syncVersion, alloc
+//@ func (*Store).pushFile
+//@   trusted
+//@   ensures !errors.Is(result, errSkipUnnamed)
+//@   modifies alloc, elems[byte], elems[any], elems[string], ghost.matched, ghost.atEOF, ghost.digestOK, ghost.delivered, ghost.syncHas, ghost.syncVal, ghost.syncVersion, ghost.closedRC
+//@ func (*Store).pushDir
+//@   trusted
+//@   ensures !errors.Is(result, errSkipUnnamed)
+//@   modifies alloc, elems[byte], elems[any], elems[string], ghost.matched, ghost.atEOF, ghost.digestOK, ghost.delivered, ghost.syncHas, ghost.syncVal, ghost.syncVersion, ghost.closedRC
+//@
+//@ pure absOf(p string) string
+//@ pure relOf(base string, target string) string
+//@ pure toSlash(p string) string
+//@ pure hasPrefix(s string, prefix string) bool
+//@ pure isAbs(p string) bool
+//@ pure joined(a string, b string) string
+//@ pure insideWorkingDir(s *Store, p string) bool = !hasPrefix(toSlash(relOf(absOf(s.workingDir), absOf(p))), "../") && toSlash(relOf(absOf(s.workingDir), absOf(p))) != ".."
+//@
+//@ func (*Store).absPath
+//@   ensures [C11:joined-to-working-dir] result == (isAbs(path) ? path : joined(s.workingDir, path))
+//@   modifies alloc, elems[string]
+//@
+//@ func (*Store).resolveWritePath
+//@   ensures [C11:lexically-inside-working-dir] result1 == nil && !s.AllowPathTraversalOnWrite ==> insideWorkingDir(s, result0)
+//@   ensures [C11:path-of-name] result1 == nil ==> result0 == (isAbs(name) ? name : joined(s.workingDir, name))
+//@   modifies alloc, elems[string], elems[any]
+//@
+//@ ghost local pfNamed bool
+//@ ghost local pfStatus *nameStatus
+//@ ghost local pfWrites int
+//@ ghost local pfWriteOK bool
+//@ ghost local pfTarget string
+//@ ghost local pfTargetOK bool
+//@ func (*Store).push
+//@   requires [wf] s != nil && s.fallbackStorage != nil
+//@   entry set pfNamed = false
+//@   entry set pfWrites = 0
+//@   entry set pfWriteOK = false
+//@   entry set pfTargetOK = false
+//@   call s.fallbackStorage.Push assume [private-error-not-returned-by-other-stores] !errors.Is(result, errSkipUnnamed)
+//@   call status set pfNamed = true
+//@   call status set pfStatus = result
+//@   call resolveWritePath assume [private-error-not-returned-by-the-standard-library] !errors.Is(result1, errSkipUnnamed)
+//@   call resolveWritePath set pfTarget = result0
+//@   call resolveWritePath set pfTargetOK = result1 == nil
+//@   call pushFile set pfWrites = pfWrites + 1
+//@   call pushFile set pfWriteOK = result == nil
+//@   call pushFile requires [C11:write-path-from-resolveWritePath] pfTargetOK && args.target == pfTarget
+//@   call pushFile requires [C06:duplicate-name-writes-nothing] !old(now(pfStatus).exists)
+//@   call pushDir set pfWrites = pfWrites + 1
+//@   call pushDir set pfWriteOK = result == nil
+//@   call pushDir requires [C11:write-path-from-resolveWritePath] pfTargetOK && args.target == pfTarget
+//@   call pushDir requires [C06:duplicate-name-writes-nothing] !old(now(pfStatus).exists)
 //@   ensures [skip-only-unnamed] errors.Is(result, errSkipUnnamed) ==> s.IgnoreNoName && lookup(expected.Annotations, ocispec.AnnotationTitle) == ""
-//@   modifies alloc, elems[byte], ghost.matched, ghost.atEOF, ghost.digestOK, ghost.delivered, ghost.pushes, ghost.lastPush, ghost.present
+//@   ensures [C05,C06:exists-flag-only-after-successful-write] pfNamed && pfStatus.exists && !old(now(pfStatus).exists) ==> result == nil && pfWrites == 1 && pfWriteOK
+//@   ensures [C06:failed-push-leaves-name-free] pfNamed && result != nil ==> pfStatus.exists == old(now(pfStatus).exists)
+//@   ensures [C06:duplicate-name-refused] pfNamed && old(now(pfStatus).exists) ==> errors.Is(result, ErrDuplicateName) && pfWrites == 0
+//@   ensures [C06:lock-released] pfNamed ==> held(lockOf(pfStatus, "RWMutex")) == 0
+//@   modifies alloc, elems[byte], elems[any], elems[string], ghost.matched, ghost.atEOF, ghost.digestOK, ghost.delivered, ghost.syncHas, ghost.syncVal, ghost.syncVersion, ghost.closedRC, ghost.pushes, ghost.lastPush, ghost.present, nameStatus.exists
 //@ func (*Store).restoreDuplicates
 //@   trusted
 //@   modifies alloc, elems[byte]
